@@ -955,6 +955,16 @@ func runContainerStream(c *ctx) error {
 						alt, _ := cid.Prefix{Version: 1, Codec: 0x55, MhType: 0x12, MhLength: 32}.Sum(data)
 						ac := append(append([][]byte(nil), secs[0]), append(append([]byte(nil), alt.Bytes()...), data...))
 						emitRead(f, "eof", enc(frame(append(ac, secs[2:]...))), "bytes", "foreign-cid-codec")
+						// a block stored under an IDENTITY-multihash CID that does not describe its data: the hash-function code of the
+						// stored CID changed to 0x00 (its 32 digest bytes then claim to BE the content), and an identity CID of other content
+						ob := oc.Bytes()
+						if len(ob) > 4 && ob[2] == 0x12 {
+							idc := append([]byte(nil), ob...)
+							idc[2] = 0x00
+							emitRead(f, "eof", enc(frame(append(append([][]byte(nil), secs[0], append(idc, data...)), secs[2:]...))), "bytes", "identity-cid-mismatch")
+							short := []byte{0x01, 0x71, 0x00, 0x04, 'a', 'b', 'c', 'd'}
+							emitRead(f, "eof", enc(frame(append(append([][]byte(nil), secs[0], append(short, data...)), secs[2:]...))), "stream1", "identity-cid-mismatch")
+						}
 						// a block stored under the CID of ANOTHER block's data
 						if len(secs) >= 3 {
 							_, oc2, _ := cid.CidFromBytes(secs[2])
